@@ -59,7 +59,7 @@ func loadProgram(repo string, patterns []string) (*Program, error) {
 	if len(errs) > 0 {
 		return nil, fmt.Errorf("load errors:\n%s", strings.Join(errs, "\n"))
 	}
-	prog, _ := ssautil.AllPackages(pkgs, ssa.BuilderMode(0))
+	prog, _ := ssautil.AllPackages(pkgs, ssa.GlobalDebug)
 	prog.Build()
 	P := &Program{repo: repo, fset: prog.Fset, pkgs: pkgs, prog: prog,
 		byPath: map[string]*packages.Package{}, ssaPkgs: map[string]*ssa.Package{},
